@@ -244,7 +244,7 @@ def run(run):
                   "equivalence": "two valid symbolic schemes (24 reals), both variants", "nickname": "12 valid symbolic penalties"}
     run.exhaustive = True
     jobs = [("ctor", 0), ("malformed", 0), ("mul", 0), ("equiv", 6), ("equiv", 3), ("nick", 0)]
-    run.add_candidates(harness.pmap(dispatch, jobs))
+    run.pmap("dispatch", dispatch, jobs)
     run.extra["stubs"] = sh
 
 
